@@ -1364,7 +1364,8 @@ where
                 while self.index < entries.len() {
                     let entry = &entries[self.index];
                     self.index += 1;
-                    if entry.hash != 0 {
+                    // hash == 0 is an empty slot, hash == u64::MAX a tombstone left by remove()
+                    if entry.hash != 0 && entry.hash != u64::MAX {
                         return Some((&entry.key, &entry.value));
                     }
                 }
